@@ -18,11 +18,18 @@
 (*  Radix4/RadixN   digit-reversed transpose + layered cross-FFTs with the *)
 (*                  packed per-layer twiddle table   (radix4.rs, radixn.rs)*)
 (*  Dft/Butterfly   primitive DFTs                                         *)
+(*  AvxRadix        MixedRadix{2..16}xnAvx at vector-register granularity:  *)
+(*                  column groups of W lanes, the partial remainder group,  *)
+(*                  twiddle-chunk indexing, packed transposes               *)
+(*  AvxRaders       RadersAvx2: multiplied-forward gather indexes, inverse  *)
+(*                  output mapping table, 2-element remainders              *)
+(*  AvxBluesteins   BluesteinsAvx: padded twiddle vectors, unconditional    *)
+(*                  remainder chunk, whole-vector zero fill                 *)
 (*                                                                         *)
 (* A tree node is [k, len, fs, ch]: kind, declared length (leaves and      *)
 (* Bluestein), radix factors (RadixN/Radix4: outermost last), children.    *)
 (***************************************************************************)
-EXTENDS Field, Sequences
+EXTENDS Field, Sequences, FiniteSets
 
 CONSTANTS P,        \* prime modulus, P = 1 (mod BigN)
           BigN,     \* every transform length of the universe (and 2n for Bluestein) divides BigN
@@ -93,6 +100,82 @@ BitRevTranspose(x, height, d) ==
     LET width == Len(x) \div height  digits == LogD(width, d) IN
     [o \in 1..Len(x) |->
         LET y == (o - 1) % height  xr == (o - 1) \div height  xx == RevDigits(xr, d, digits) IN x[xx + y * width + 1]]
+
+\* ----- AVX kernels at vector-register granularity (avx_mixed_radix.rs, avx_raders.rs, avx_bluesteins.rs) -----
+\* W = COMPLEX_PER_VECTOR (4 for f32, 2 for f64).  Every loop over full vectors and every remainder branch of the
+\* code is transcribed as the set of stores <<destination index, value>> it performs; Scatter rebuilds the
+\* buffer and marks a cell that is never written, or written with two different values, as poisoned.
+Poison == <<"poison">>
+Scatter(stores, n) == [o \in 1..n |-> LET m == {s \in stores : s[1] = o - 1} IN
+                                      IF Cardinality(m) = 1 THEN (CHOOSE s \in m : TRUE)[2] ELSE Poison]
+StoresInRange(stores, n) == \A s \in stores : s[1] \in 0..(n - 1)
+
+\* perform_column_butterflies: R rows of L columns; column groups of W lanes plus one partial group.
+\* twiddle table (mixedradix_gen_data): chunk xx in 0..ntc-1, row y in 1..R-1, lane l: compute_twiddle(y*(xx*W+l), n)
+AvxColumnStores(x, R, L, W, inv) ==
+    LET n == R * L  q == L \div W  rem == L % W
+        ntc == q + (IF rem > 0 THEN 1 ELSE 0)                       \* quotient + div_ceil(remainder, W)
+        Group(base, cnt, twc) ==
+            LET out == [l \in 0..(cnt - 1) |-> NaiveDft([i \in 1..R |-> x[base + L * (i - 1) + l + 1]], inv)] IN
+            {<<base + L * i + l, IF i = 0 THEN out[l][1] ELSE CMul(Tw(i * (twc * W + l), n, inv), out[l][i + 1], P)>> :
+                i \in 0..(R - 1), l \in 0..(cnt - 1)}
+    IN UNION {Group(c * W, W, c) : c \in 0..(q - 1)}
+       \cup (IF rem > 0 THEN Group(q * W, rem, ntc - 1) ELSE {})      \* final_twiddle_chunk = last chunk of the table
+
+\* transpose (mixedradix_transpose!): input R x L, output L x R; packed transposes are lane-major: position p of the
+\* packed group holds lane p \div R of row p % R
+AvxTransposeStores(x, R, L, W) ==
+    LET q == L \div W  rem == L % W
+        ibase == q * W  obase == q * W * R
+        Packed(ib, p) == x[ib + (p \div R) + L * (p % R) + 1]
+        full == {<<c * W * R + p, Packed(c * W, p)>> : c \in 0..(q - 1), p \in 0..(W * R - 1)}
+        fullcnt == (3 * R) \div W
+        tail == CASE rem = 0 -> {}
+                  [] rem = 1 -> {<<obase + i, x[ibase + L * i + 1]>> : i \in 0..(R - 1)}
+                  [] rem = 2 -> {<<obase + 2 * idx + e, Packed(ibase, 2 * idx + e)>> : idx \in 0..(R - 1), e \in 0..1}
+                  [] rem = 3 -> {<<obase + pp, Packed(ibase, pp)>> : pp \in 0..(fullcnt * W - 1)} \cup
+                                {<<obase + fullcnt * W + e, Packed(ibase, fullcnt * W + e)>> : e \in 0..(((3 * R) % W) - 1)}
+    IN full \cup tail
+
+\* RadersAvx2::prepare_raders: the gather indexes are advanced by a vectorised multiply-mod; lane l of step c holds
+\* g^(l+1) * (g^W)^c mod n.  The remainder is gathered only when exactly two elements are left.
+AvxRadersGather(x, W, g) ==
+    LET n == Len(x)  m == n - 1  q == m \div W  rem == m % W
+        step == PowMod(g, W, n)
+        Idx(c, l) == (PowMod(g, l + 1, n) * PowMod(step, c, n)) % n
+    IN {<<c * W + l, x[Idx(c, l) + 1]>> : c \in 0..(q - 1), l \in 0..(W - 1)}
+       \cup (IF rem = 2 THEN {<<q * W + l, x[Idx(q, l) + 1]>> : l \in 0..1} ELSE {})
+\* output_mapping_inverse[gi^i] = i for i = 1..n-1 (array of 1 + ceil(n/W)*W zero-initialised entries); chunks_exact(W)
+\* of mapping[1..]; finalize gathers input[mapping] for full chunks, and the LAST mapping chunk's low half when two are left
+AvxRadersScatter(src, n, W, gi) ==
+    LET m == n - 1  q == m \div W  rem == m % W
+        msize == 1 + ((n + W - 1) \div W) * W
+        pw == [i \in 1..(n - 1) |-> PowMod(gi, i, n)]
+        map == [j \in 0..(msize - 1) |-> IF \E i \in 1..(n - 1) : pw[i] = j THEN CHOOSE i \in 1..(n - 1) : pw[i] = j ELSE 0]
+        nchunks == (msize - 1) \div W
+        Chunk(c, l) == map[1 + c * W + l]
+    IN {<<c * W + l, CConj(src[Chunk(c, l) + 1], P)>> : c \in 0..(q - 1), l \in 0..(W - 1)}
+       \cup (IF rem = 2 THEN {<<q * W + l, CConj(src[Chunk(nchunks - 1, l) + 1], P)>> : l \in 0..1} ELSE {})
+
+\* pairwise_complex_mul_conjugated: out[i] = conj(in[i]) * mult[i]; mult is stored in ceil(m/W) vectors, the remainder uses the LAST vector
+AvxPairwiseConjMul(a, mult, W) ==
+    LET m == Len(a)  q == m \div W  rem == m % W  nv == (m + W - 1) \div W IN
+    [i \in 1..m |-> IF i <= q * W THEN CMul(CConj(a[i], P), mult[i], P)
+                    ELSE CMul(CConj(a[i], P), mult[(nv - 1) * W + (i - q * W)], P)]
+
+\* BluesteinsAvx: twiddle table padded with zeros to ceil(n/W) vectors; prepare = (#vectors - 1) full chunks + an
+\* unconditional remainder chunk of 1..W elements + zero fill of the rest of the inner buffer in whole vectors
+AvxBluesteinPrepare(x, tw, m, W) ==
+    LET n == Len(x)  nvec == (n + W - 1) \div W  cc == nvec - 1  rem == n - cc * W
+        TwPad(i) == IF i < n THEN tw[i + 1] ELSE CZero
+        In(i, cnt, base) == IF i - base < cnt THEN x[i + 1] ELSE CZero          \* partial loads zero-extend
+    IN {<<i, CMul(x[i + 1], tw[i + 1], P)>> : i \in 0..(cc * W - 1)}
+       \cup {<<cc * W + l, CMul(TwPad(cc * W + l), In(cc * W + l, rem, cc * W), P)>> : l \in 0..(W - 1)}
+       \cup {<<v * W + l, CZero>> : v \in (cc + 1)..((m \div W) - 1), l \in 0..(W - 1)}
+AvxBluesteinFinalize(inner, tw, n, W) ==
+    LET nvec == (n + W - 1) \div W  cc == nvec - 1  rem == n - cc * W IN
+    {<<i, CMul(CConj(inner[i + 1], P), tw[i + 1], P)>> : i \in 0..(cc * W - 1)}
+    \cup {<<cc * W + l, CMul(CConj(inner[cc * W + l + 1], P), tw[cc * W + l + 1], P)>> : l \in 0..(rem - 1)}
 
 \* ----- the interpreter ---------------------------------------------------------------------------
 RECURSIVE Run(_, _, _)
@@ -192,6 +275,48 @@ Run(t, x, inv) ==
                                       x[(CHOOSE xx \in 0..(width - 1) : MixedRev(xx, Reverse(t.fs)) = xr) + y * width + 1]]
                 s2 == RunChunks(t.ch[1], s1, base, inv)
             IN Layers(s2, t.fs, base, inv)
+      [] t.k = "AvxRadix" ->
+            \* MixedRadix{R}xnAvx: column butterflies (+twiddles) in place, row FFTs out of place, packed transpose back
+            LET R == t.fs[1]  L == t.ch[1].len
+                st1 == AvxColumnStores(x, R, L, t.w, inv)
+                s1 == IF StoresInRange(st1, n) THEN Scatter(st1, n) ELSE [i \in 1..n |-> Poison]
+                s2 == RunChunks(t.ch[1], s1, L, inv)
+                st3 == AvxTransposeStores(s2, R, L, t.w)
+            IN IF StoresInRange(st3, n) THEN Scatter(st3, n) ELSE [i \in 1..n |-> Poison]
+      [] t.k = "AvxRaders" ->
+            LET m == n - 1  W == t.w
+                g == PrimRoot(n)  gi == ModInv(g, n)
+                \* constructor: twiddle_input = 1, then *= gi; kernel = conj(InnerFFT(twiddles / m)), stored in vectors
+                kin == [j \in 1..m |-> CScale(Tw(PowMod(gi, j - 1, n), n, inv), InvOf(m), P)]
+                kfft == Run(t.ch[1], kin, inv)
+                kern == [j \in 1..m |-> CConj(kfft[j], P)]
+                stg == AvxRadersGather(x, W, g)
+                s1 == Scatter(stg, m)
+                s2 == Run(t.ch[1], s1, inv)
+                first == CAdd(x[1], s2[1], P)
+                \* conj(a) * conj(kernel) = conj(a * kernel)
+                s3 == AvxPairwiseConjMul(s2, kern, W)
+                s4 == [s3 EXCEPT ![1] = CAdd(s3[1], CConj(x[1], P), P)]
+                s5 == Run(t.ch[1], s4, inv)
+                src == <<x[1]>> \o s5                                  \* scratch2: [0] = first input, [1..] = inner result
+                sto == AvxRadersScatter(src, n, W, gi)
+                tail == Scatter(sto, m)
+            IN [o \in 1..n |-> IF o = 1 THEN first ELSE tail[o - 1]]
+      [] t.k = "AvxBluesteins" ->
+            LET m == t.ch[1].len  W == t.w
+                tw == [i \in 1..n |-> Tw(((i - 1) * (i - 1)) % (2 * n), 2 * n, inv)]
+                \* constructor: fill_bluesteins_twiddles(opposite direction), scaled, mirrored to the end of the buffer
+                kin0 == [i \in 1..m |-> IF i <= n THEN CScale(CConj(tw[i], P), InvOf(m), P) ELSE CZero]
+                kin == [i \in 1..m |-> IF i <= n THEN kin0[i]
+                                       ELSE IF m - (i - 1) \in 1..(n - 1) THEN kin0[m - (i - 1) + 1] ELSE CZero]
+                mfft == Run(t.ch[1], kin, inv)
+                mult == [i \in 1..m |-> CConj(mfft[i], P)]                            \* stored pre-conjugated
+                st1 == AvxBluesteinPrepare(x, tw, m, W)
+                s1 == IF StoresInRange(st1, m) THEN Scatter(st1, m) ELSE [i \in 1..m |-> Poison]
+                s2 == Run(t.ch[1], s1, inv)
+                s3 == [i \in 1..m |-> CMul(CConj(s2[i], P), mult[i], P)]
+                s4 == Run(t.ch[1], s3, inv)
+            IN Scatter(AvxBluesteinFinalize(s4, tw, n, W), n)
 
 Impulse(n, j) == [i \in 1..n |-> IF i = j + 1 THEN COne ELSE CZero]
 \* column j of the DFT matrix
